@@ -12,5 +12,6 @@ PASSED=$(grep -E "^test result" $LOG | awk '{p+=$4; f+=$6} END {print p"/"f}')
 DEMO=$(ls $M/demo.sh 2>/dev/null)
 if [ -n "$DEMO" ]; then (cd $M && timeout 900 bash ./demo.sh) >> $LOG 2>&1; D1=$?; else D1=na; fi
 git apply -R --whitespace=nowarn $M/patch.diff >> $LOG 2>&1; git checkout -q -- .
+cargo build --offline --workspace >> $LOG 2>&1
 if [ -n "$DEMO" ]; then (cd $M && timeout 900 bash ./demo.sh) >> $LOG 2>&1; D0=$?; else D0=na; fi
 echo "$W MUTANT$N tests_exit=$T passed/failed=$PASSED demo_with=$D1 demo_without=$D0"
